@@ -1,4 +1,5 @@
 import NrDaemon.Lemmas.Reservoir
+import NrDaemon.Lemmas.SlowSQL
 import NrDaemon.Spec.TopK
 import NrDaemon.Gen.Limits
 /-!
@@ -172,3 +173,37 @@ theorem C06_fixed_capacities_positive :
 over-capacity history with a synthetics event and a carried-over reservoir. -/
 #guard (runRes 2 [.add ⟨5, 1⟩, .add ⟨7, 2⟩, .addSyn ⟨1, 3⟩, .merge #[⟨9, 4⟩, ⟨5, 5⟩]]).toList.map (·.prio)
     == [9, 2000001]
+
+/-! ## Slow SQLs (`Model/SlowSQL.lean`, `Lemmas/SlowSQL.lean`) -/
+
+theorem slowFold_inv (cap : Nat) (obs : List Slow) (l seen : List Slow) (h : SlowInv cap l seen) :
+    SlowInv cap (obs.foldl (slowObserve cap) l) (seen ++ obs) := by
+  induction obs generalizing l seen with
+  | nil => simpa using h
+  | cons o obs ih =>
+    have := ih _ _ (slowObserve_inv cap l seen o h)
+    simpa [List.append_assoc] using this
+
+/-- **C06 (slow SQLs).**  For every capacity K (K = 10 in the daemon, pinned by `Gen.Limits`; 0 included) and every sequence
+of observations, in any order and with any repetitions: at most K statements are retained, each id once; and every
+observation ever made is accounted for — either it was merged into a retained statement whose maximum duration is at least
+its own, or the collection is full, its statement is not retained, and it is no slower than any retained statement.  So
+the retained statements are the ones with the largest maximum duration. -/
+theorem C06_slow_sql_topk (cap : Nat) (obs : List Slow) :
+    let res := obs.foldl (slowObserve cap) []
+    res.length ≤ cap ∧ (res.map (·.id)).Nodup ∧
+    ∀ o ∈ obs, (∃ r ∈ res, r.id = o.id ∧ o.max ≤ r.max) ∨
+               (res.length = cap ∧ (∀ r ∈ res, r.id ≠ o.id) ∧ ∀ r ∈ res, o.max ≤ r.max) := by
+  have h := slowFold_inv cap obs [] [] ⟨by simp, by simp, by simp⟩
+  exact ⟨h.len, h.ids, fun o ho => h.cov o (by simpa using ho)⟩
+
+/-- **C06 (repeated observations are merged).**  Counts and totals are added, the minimum and the maximum are kept, and
+the text is that of the slowest observation. -/
+theorem C06_slow_sql_merge (s o : Slow) :
+    (s.merge o).id = s.id ∧ (s.merge o).count = s.count + o.count ∧ (s.merge o).total = s.total + o.total ∧
+    (s.merge o).min = Nat.min s.min o.min ∧ (s.merge o).max = Nat.max s.max o.max ∧
+    (s.merge o).text = if o.max > s.max then o.text else s.text := by
+  unfold Slow.merge
+  dsimp only
+  by_cases h1 : o.min < s.min <;> by_cases h2 : o.max > s.max <;>
+    simp [h1, h2, Nat.min_def, Nat.max_def] <;> omega
